@@ -1124,3 +1124,68 @@ func WireValue(v Value, t ColType, binaryProto bool) Value {
 	}
 	return v
 }
+
+// ---------------------------------------------------------------------------------------------
+// inspection (for oracles that need the meaning of a statement the database received)
+
+// Lit is a literal or placeholder of an inspected statement.
+type Lit struct {
+	Kind string // null | int | str | bytes | param
+	B    []byte // integer text / string bytes / decoded hex bytes
+}
+
+// Statement is the meaning of a parsed INSERT / UPDATE / SELECT / DELETE (Kind "other" for anything else).
+type Statement struct {
+	Kind    string
+	Table   string
+	Cols    []string // INSERT column list / SELECT items / UPDATE SET columns
+	Star    bool
+	Rows    [][]Lit // INSERT tuples; UPDATE: one row with the SET values
+	NParams int
+}
+
+func litOf(o operand) Lit {
+	switch o.lit {
+	case lNull:
+		return Lit{Kind: "null"}
+	case lInt:
+		return Lit{Kind: "int", B: o.b}
+	case lStr:
+		return Lit{Kind: "str", B: o.b}
+	case lBytes:
+		return Lit{Kind: "bytes", B: o.b}
+	}
+	return Lit{Kind: "param"}
+}
+
+// Inspect parses sql with the fake database's own parser and returns its meaning.
+func Inspect(sql string) (*Statement, error) {
+	st, err := parseSQL(sql)
+	if err != nil {
+		return nil, err
+	}
+	out := &Statement{Kind: st.kind, Table: st.table, Star: st.star, NParams: st.nParams}
+	switch st.kind {
+	case "insert":
+		out.Cols = st.cols
+		for _, r := range st.rows {
+			var row []Lit
+			for _, o := range r {
+				row = append(row, litOf(o))
+			}
+			out.Rows = append(out.Rows, row)
+		}
+	case "update":
+		out.Cols = st.set
+		var row []Lit
+		for _, o := range st.setVals {
+			row = append(row, litOf(o))
+		}
+		out.Rows = [][]Lit{row}
+	case "select":
+		for _, it := range st.sel {
+			out.Cols = append(out.Cols, it.col)
+		}
+	}
+	return out, nil
+}
